@@ -49,7 +49,7 @@ EXPECT = {
     "C10": ["mcs_job.timeout", "fmcs.cancel"],
     "C11": ["mcs_job.timeout", "mcs_job.hang", "frag_job.timeout", "frag_job.exception", "fmcs.cancel", "fmcs.raise", "fmces.empty", "zombie_step",
             "probe:zombie_wrote_shared_record", "probe:all_conditions_failed", "probe:affected_row_declined", "probe:affected_row_still_solved"],
-    "C12": ["crash_write", "cache_hit", "enospc"],
+    "C12": ["crash_write", "cache_hit", "enospc", "eio_replace", "eio_read"],
     "C06": ["probe:par_out_of_order_completion"],
 }
 COMPONENTS = {
